@@ -1,11 +1,17 @@
 package c16
 
 import (
+	"context"
+	"sync"
+
 	"crypto"
 	"crypto/x509"
 	"encoding/base64"
 	"encoding/json"
 	"fmt"
+	"go.opentelemetry.io/otel"
+	sdkmetric "go.opentelemetry.io/otel/sdk/metric"
+	"go.opentelemetry.io/otel/sdk/metric/metricdata"
 	"net/http"
 	"net/http/httptest"
 	"os"
@@ -55,11 +61,40 @@ var claimTemplates = map[string]string{
 
 var claimOrder = []string{"none", "custom", "reserved", "types", "nested", "subject"}
 
-type cctx struct{ reg keyholder.Registry }
+type cctx struct {
+	reg keyholder.Registry
+	co  certificate.Observer
+}
 
-func (c *cctx) Watcher() watcher.Watcher                  { return &watcher.NoopWatcher{} }
-func (c *cctx) KeyHolderRegistry() keyholder.Registry     { return c.reg }
-func (c *cctx) CertificateObserver() certificate.Observer { return certificate.NewObserver() }
+func (c *cctx) Watcher() watcher.Watcher              { return &watcher.NoopWatcher{} }
+func (c *cctx) KeyHolderRegistry() keyholder.Registry { return c.reg }
+func (c *cctx) CertificateObserver() certificate.Observer {
+	if c.co == nil {
+		c.co = certificate.NewObserver()
+	}
+
+	return c.co
+}
+
+// the certificate expiry metrics are collected by a real OpenTelemetry SDK with a manual reader: collectMetrics is what a
+// scrape of the metrics endpoint triggers
+var (
+	otelOnce   sync.Once
+	otelReader *sdkmetric.ManualReader
+)
+
+func otelSetup() {
+	otelOnce.Do(func() {
+		otelReader = sdkmetric.NewManualReader()
+		otel.SetMeterProvider(sdkmetric.NewMeterProvider(sdkmetric.WithReader(otelReader)))
+	})
+}
+
+func collectMetrics() error {
+	var rm metricdata.ResourceMetrics
+
+	return otelReader.Collect(context.Background(), &rm)
+}
 
 func confCases(quick bool) []confCase {
 	type kk struct {
@@ -175,7 +210,7 @@ func execConf(cc *confCase) (sig, summary string) {
 
 	reg := keyholder.VerifNewRegistry()
 
-	fin, err := finalizers.VerifC16NewJWTFinalizer(&cctx{reg}, "jwt", conf)
+	fin, err := finalizers.VerifC16NewJWTFinalizer(&cctx{reg: reg}, "jwt", conf)
 	if err != nil {
 		return "configs/finalizer-creation-failed", err.Error()
 	}
